@@ -15,7 +15,7 @@ mod server;
 
 use std::collections::HashMap;
 use std::net::SocketAddr;
-use std::sync::Arc;
+use std::sync::{Arc, Mutex};
 use std::time::Duration;
 
 use domain::base::Message;
@@ -27,6 +27,7 @@ use domain::net::server::message::{
 use domain::net::server::service::{Service, ServiceFeedback};
 use domain::net::server::stream::{self, StreamServer};
 use domain::net::server::ConnectionConfig;
+use futures_util::stream::Stream as _;
 use futures_util::StreamExt;
 use serde_json::{json, Value};
 use server::*;
@@ -52,7 +53,71 @@ fn opt_u16(v: &Value) -> Option<u16> {
 
 //------------ size ----------------------------------------------------------
 
-fn run_size(input: &Value) -> Value {
+const CLIENT: &str = "192.0.2.1:5300";
+
+/// What one call of the stack yields: per stream item the complete stream
+/// slice (prefix + message; empty for Err), and the size hints before the
+/// first poll and after every item.
+struct Driven {
+    items: Vec<Vec<u8>>,
+    hints: Vec<(usize, Option<usize>)>,
+    as_target_same: bool,
+    response_accessor_same: bool,
+}
+
+async fn drive<S>(st: &S, req: Request<Vec<u8>, ()>) -> Driven
+where
+    S: Service<Vec<u8>, ()>,
+    S::Target: AsRef<[u8]>,
+{
+    let mut stream = st.call(req).await;
+    let mut d = Driven {
+        items: vec![],
+        hints: vec![stream.size_hint()],
+        as_target_same: true,
+        response_accessor_same: true,
+    };
+    while let Some(item) = stream.next().await {
+        match item {
+            Ok(cr) => {
+                // CallResult::response() is the response into_inner() hands out
+                let seen = cr.response().map(|r| r.as_slice().to_vec());
+                if let (Some(r), _) = cr.into_inner() {
+                    if seen.as_deref() != Some(r.as_slice()) {
+                        d.response_accessor_same = false;
+                    }
+                    let t = r.finish();
+                    if t.as_target().as_ref() != t.as_stream_slice() {
+                        d.as_target_same = false;
+                    }
+                    d.items.push(t.as_stream_slice().to_vec());
+                }
+            }
+            Err(_) => d.items.push(vec![]),
+        }
+        d.hints.push(stream.size_hint());
+    }
+    d
+}
+
+fn hints_json(h: &[(usize, Option<usize>)]) -> Value {
+    json!(h
+        .iter()
+        .map(|(lo, hi)| json!([lo, hi.map(|x| x as i64).unwrap_or(70000)]))
+        .collect::<Vec<_>>())
+}
+
+fn mk_request(bytes: &[u8], udp: bool, hint: Option<u16>) -> Request<Vec<u8>, ()> {
+    let msg = Message::from_octets(bytes.to_vec()).unwrap();
+    let ctx: TransportSpecificContext = if udp {
+        UdpTransportContext::new(hint).into()
+    } else {
+        NonUdpTransportContext::new(Some(HALF * 2)).into()
+    };
+    Request::new(CLIENT.parse().unwrap(), tokio::time::Instant::now(), msg, ctx, ())
+}
+
+fn size_inputs(input: &Value) -> (bool, Option<u16>, AnsSpec, Vec<u8>, StackCfg) {
     let udp = input["udp"].as_bool().unwrap_or(true);
     let edns = if input["edns"].as_bool().unwrap_or(false) {
         opt_u16(&input["csize"])
@@ -61,71 +126,206 @@ fn run_size(input: &Value) -> Value {
     };
     let hint = opt_u16(&input["hint"]);
     let qlen = input["qlen"].as_u64().unwrap_or(17) as usize;
-    let len = input["len"].as_u64().unwrap_or(100) as usize;
-    let optlen = input["optlen"].as_u64().unwrap_or(0) as usize;
+    let spec = AnsSpec {
+        len: input["len"].as_u64().unwrap_or(100) as usize,
+        optlen: input["optlen"].as_u64().unwrap_or(0) as usize,
+        recipe: input["recipe"].as_str().unwrap_or("plain").into(),
+        route: input["route"].as_str().unwrap_or("mk").into(),
+        alay: input["alay"].as_str().unwrap_or("none").into(),
+    };
+    let req_bytes =
+        mk_query_opts(0x4321, qlen, edns, false, input["ropts"].as_str().unwrap_or("none"));
+    let cfg = StackCfg {
+        edns_on: input["eon"].as_bool().unwrap_or(true),
+        ..Default::default()
+    };
+    (udp, hint, spec, req_bytes, cfg)
+}
+
+fn run_size(input: &Value) -> Value {
+    let (udp, hint, spec, req_bytes, cfg) = size_inputs(input);
     let id = 0x4321u16;
-    let req_bytes = mk_query_opts(id, qlen, edns, false, input["ropts"].as_str().unwrap_or("none"));
     let before = panics();
-    let out = rt().block_on(async move {
-        let svc = ScriptSvc::default();
-        svc.script(id, vec![Item::Resp { len, optlen, fb: None }], 1);
-        let st = stack(svc.clone());
-        let msg = Message::from_octets(req_bytes.clone()).unwrap();
-        let ctx: TransportSpecificContext = if udp {
-            UdpTransportContext::new(hint).into()
+    let rb = req_bytes.clone();
+    let svcroute = input["svcroute"].as_str().unwrap_or("impl").to_string();
+    let tgt = input["tgt"].as_str().unwrap_or("vec").to_string();
+    let (d, state) = rt().block_on(async move {
+        let req = mk_request(&rb, udp, hint);
+        if svcroute == "fn" {
+            // the service is made with util::service_fn
+            let state: Arc<Mutex<SvcState>> = Default::default();
+            let svc = domain::net::server::util::service_fn(fn_handler, (spec, state.clone()));
+            let st = stack_over(svc, &cfg);
+            (drive(&st, req).await, state)
+        } else if tgt == "bytes" {
+            let svc = ScriptSvc::<bytes::BytesMut>::default();
+            svc.script(id, vec![Item::RespX { spec, fb: None }], 1);
+            let st = stack_over(svc.clone(), &cfg);
+            (drive(&st, req).await, svc.0.clone())
         } else {
-            NonUdpTransportContext::new(Some(HALF * 2)).into()
-        };
-        let req = Request::new(
-            "192.0.2.1:5300".parse().unwrap(),
-            tokio::time::Instant::now(),
-            msg,
-            ctx,
-            (),
-        );
-        let mut stream = st.call(req).await;
-        let mut resps = vec![];
-        while let Some(item) = stream.next().await {
-            match item {
-                Ok(cr) => {
-                    if let (Some(r), _) = cr.into_inner() {
-                        resps.push(r.finish().as_dgram_slice().to_vec());
-                    }
-                }
-                Err(_) => resps.push(vec![]),
-            }
+            let svc = ScriptSvc::<Vec<u8>>::default();
+            svc.script(id, vec![Item::RespX { spec, fb: None }], 1);
+            let st = stack_over(svc.clone(), &cfg);
+            (drive(&st, req).await, svc.0.clone())
         }
-        let arrived = svc.0.lock().unwrap().arrived.clone();
-        (resps, arrived, req_bytes)
     });
     if panics() != before {
         return json!({"panic": true});
     }
-    let (resps, arrived, req_bytes) = out;
-    if resps.len() != 1 {
-        return json!({"n": resps.len()});
+    if d.items.len() != 1 {
+        return json!({"n": d.items.len()});
     }
-    let d = describe(&resps[0]);
+    let whole = &d.items[0];
+    if whole.len() < 2 {
+        return json!({"n": 1, "err": true});
+    }
+    let dg = describe(&whole[2..]);
     let reqd = describe(&req_bytes);
-    let good = d["parses"] == json!(true)
-        && d["id"] == json!(id)
-        && d["qr"] == json!(true)
-        && d["rd"] == json!(true)
-        && d["q"] == reqd["q"]
-        && d["ns"] == json!(0);
-    let (reserved, hint_after) = arrived
+    let good = dg["parses"] == json!(true)
+        && dg["id"] == json!(id)
+        && dg["qr"] == json!(true)
+        && dg["rd"] == json!(true)
+        && dg["q"] == reqd["q"]
+        && dg["ns"] == json!(0)
+        && d.as_target_same
+        && d.response_accessor_same;
+    let s = state.lock().unwrap();
+    let (reserved, hint_after) = s
+        .arrived
         .first()
         .map(|a| (a.1 as i64, a.2.map(|h| h as i64).unwrap_or(70000)))
         .unwrap_or((-1, -2));
     json!({
         "n": 1,
-        "len": d["len"],
-        "tc": d["tc"],
-        "trunc": d["an"] == json!(0),
-        "opt": d["opt"],
+        "len": dg["len"],
+        "tc": dg["tc"],
+        "trunc": dg["an"] == json!(0),
+        "opt": dg["opt"],
         "good": good,
         "reserved": reserved,
         "hint": hint_after,
+        // what a stream transport would put in front of the message
+        "frame": if udp { -1 } else { u16::from_be_bytes([whole[0], whole[1]]) as i64 },
+        "fwd": s.fwd.first().copied().unwrap_or(false),
+        "nonudp": s.non_udp.first().copied().unwrap_or(udp),
+        "hints": hints_json(&d.hints),
+    })
+}
+
+//------------ pre -----------------------------------------------------------
+
+/// One request of any shape through a stack of any configuration: who
+/// answers, with what.
+fn run_pre(input: &Value) -> Value {
+    let udp = input["udp"].as_bool().unwrap_or(true);
+    let client: std::net::SocketAddr = CLIENT.parse().unwrap();
+    let cfg = StackCfg::from_json(&input["cfg"], client.ip());
+    let r = &input["req"];
+    let id = 0x5a5au16;
+    let nopt = r["nopt"].as_u64().unwrap_or(0) as usize;
+    let ck = r["ck"].clone();
+    let before = panics();
+    let out = rt().block_on(async move {
+        let svc = ScriptSvc::<Vec<u8>>::default();
+        let st = stack_over(svc.clone(), &cfg);
+        // the COOKIE option
+        let mut ckdata = if ck["form"].as_str() == Some("badlen") {
+            let n = ck["d"][0].as_u64().unwrap_or(0);
+            cookie_data(&json!({"form": "len", "n": n}), client.ip(), &SECRET)
+        } else {
+            cookie_data(&ck, client.ip(), &SECRET)
+        };
+        if cfg.random_secret && ck["form"].as_str() == Some("std") && ck["hash"].as_str() == Some("ok")
+        {
+            // nobody knows the secret: ask the server for a cookie first
+            // (RFC 7873 5.4: QDCOUNT 0, client cookie only) and present it
+            let ask = mk_query_raw(&RawReq {
+                id: 0x0101,
+                qlen: 17,
+                qd: 0,
+                opcode: 0,
+                qr: false,
+                opts: vec![(1232, 0, vec![(10, CLIENT_COOKIE.to_vec())])],
+            });
+            let got = drive(&st, mk_request(&ask, udp, Some(1232))).await;
+            ckdata = got.items.first().and_then(|w| response_cookie(&w[2..]));
+            if ckdata.is_none() {
+                return Err("no cookie obtained");
+            }
+        }
+        let mut options: Vec<(u16, Vec<u8>)> = vec![];
+        if r["kato"].as_bool().unwrap_or(false) {
+            options.push((11, vec![0, 100]));
+        }
+        if let Some(c) = ckdata {
+            options.push((10, c));
+        }
+        let mut opts = vec![];
+        if nopt >= 1 {
+            opts.push((1232u16, r["ver"].as_u64().unwrap_or(0) as u8, options));
+        }
+        if nopt >= 2 {
+            opts.push((4096u16, 0u8, vec![]));
+        }
+        let bytes = mk_query_raw(&RawReq {
+            id,
+            qlen: 17,
+            qd: r["qd"].as_u64().unwrap_or(1) as u16,
+            opcode: if r["opcode"].as_str() == Some("iquery") { 1 } else { 0 },
+            qr: false,
+            opts,
+        });
+        svc.script(id, vec![Item::Resp { len: 0, optlen: 0, fb: None }], 1);
+        let d = drive(&st, mk_request(&bytes, udp, Some(1232))).await;
+        let reached = svc.0.lock().unwrap().arrived.iter().any(|a| a.0 == id);
+        Ok((d, bytes, reached))
+    });
+    if panics() != before {
+        return json!({"panic": true});
+    }
+    let (d, req_bytes, reached) = match out {
+        Ok(x) => x,
+        Err(e) => return json!({"setup_failed": e}),
+    };
+    if d.items.len() != 1 || d.items[0].len() < 2 {
+        return json!({"n": d.items.len()});
+    }
+    let whole = &d.items[0];
+    let dg = describe(&whole[2..]);
+    let reqd = describe(&req_bytes);
+    let framed = u16::from_be_bytes([whole[0], whole[1]]) as usize == whole.len() - 2;
+    let good = dg["parses"] == json!(true)
+        && dg["id"] == json!(id)
+        && dg["qr"] == json!(true)
+        && dg["rd"] == json!(true)
+        && framed
+        && d.as_target_same;
+    let q = if dg["q"] == reqd["q"] {
+        "req"
+    } else if dg["q"] == json!([]) {
+        "none"
+    } else {
+        "other"
+    };
+    let by = if reached {
+        "service"
+    } else {
+        // a mandatory-made response is a ready one-item stream; the inner
+        // two are told apart by what they answer (rcode, question, cookie)
+        match d.hints.first() {
+            Some((1, Some(1))) => "mandatory",
+            _ => "inner",
+        }
+    };
+    json!({
+        "n": 1,
+        "by": by,
+        "rcode": dg["xrcode"],
+        "tc": dg["tc"],
+        "q": q,
+        "ck": dg["ck"],
+        "good": good && dg["nck"].as_u64().unwrap_or(9) <= 1,
+        "hints": hints_json(&d.hints),
     })
 }
 
@@ -202,7 +402,7 @@ fn run_conn(input: &Value) -> Value {
     let before = panics();
     let obs = rt().block_on(async move {
         let listener = MockListener::default();
-        let svc = ScriptSvc::default();
+        let svc = ScriptSvc::<Vec<u8>>::default();
         let st = Arc::new(stack(svc.clone()));
         let mut cfg = stream::Config::new();
         let mut cc = ConnectionConfig::new();
@@ -327,7 +527,7 @@ fn run_dgram(input: &Value) -> Value {
     let before = panics();
     let obs = rt().block_on(async move {
         let sock = MockDgram::default();
-        let svc = ScriptSvc::default();
+        let svc = ScriptSvc::<Vec<u8>>::default();
         let st = Arc::new(stack(svc.clone()));
         let mut cfg = dgram::Config::new();
         cfg.set_max_response_size(hint);
@@ -401,6 +601,7 @@ fn main() {
     count_panics();
     run_cases_counting(|input| match input["kind"].as_str() {
         Some("size") => run_size(input),
+        Some("pre") => run_pre(input),
         Some("conn") => run_conn(input),
         Some("dgram") => run_dgram(input),
         Some("cfg") => {
